@@ -38,7 +38,7 @@ def floats(ebits, mbits, rng, thorough):
 
 def strings(rng, thorough):
     alph = [0x41, 0x7f, 0x80, 0xe9, 0x7ff, 0x800, 0x20ac, 0xd7ff, 0xe000, 0xffff, 0x10000, 0x1f600, 0x10ffff, 0x0, 0x0a]
-    out = ['', 'a', '\x00', 'he', 'héllo', '€', '😀', ''.join(map(chr, alph))]
+    out = ['', 'a', '\x00', 'he', 'héllo', '€', '😀', ''.join(map(chr, alph)), '\ufeff', '\ufeffabc', 'abc\ufeff', '\ufffe', ' padded ', '\u200b', 'a\r\n', '\u0301e']
     for n in (126, 127, 128, 129, 16382, 16383, 16384, 16385):
         out.append('x' * n)
         out.append('é' * (n // 2) + 'y' * (n % 2))
